@@ -56,17 +56,21 @@ impl SixelParser {
             self.parse_char(ch)?;
         }
         self.parse_char('#')?;
+        // rows may have different lengths: pad all of them to the widest one, so that
+        // picture_data is a complete width x height RGBA rectangle.
+        let line_len = self.picture_data.iter().map(Vec::len).max().unwrap_or(0);
         let mut picture_data = Vec::new();
         for y in 0..self.height() {
             let line = &self.picture_data[y as usize];
             picture_data.extend(line);
+            picture_data.resize(picture_data.len() + line_len - line.len(), 0);
         }
         Ok(Sixel {
             position: self.pos,
             vertical_scale: self.vertical_scale,
             horizontal_scale: self.horizontal_scale,
             picture_data,
-            size: (self.width(), self.height()).into(),
+            size: ((line_len / 4) as i32, self.height()).into(),
         })
     }
 
